@@ -155,7 +155,8 @@ def run_kani_unit(res, ku, src, tier, BUILD, VERIF):
     parsed = parse_output(r['out'])
     if optional:
         # best-effort deep bounds: a harness that did not finish within the cap is reported as NOT RUN, never as passed
-        done = [h for h in ku['harnesses'] if parsed.get(h) and parsed[h]['verdict']]
+        # (a verdict without any check result is CBMC giving up - out of memory, crash -, not a completed bound)
+        done = [h for h in ku['harnesses'] if parsed.get(h) and parsed[h]['verdict'] and parsed[h]['checks']]
         not_done = [h for h in ku['harnesses'] if h not in done]
         info['bounds_not_completed'] = not_done
         res.extra.setdefault('bounds_not_completed', []).extend(not_done)
@@ -200,6 +201,8 @@ def run_kani_unit(res, ku, src, tier, BUILD, VERIF):
                 undet.append('%s: check %s is %s (%s)' % (h, c['name'], c['status'], c['desc'][:80]))
         if hr['verdict'] is None:
             undet.append('%s: no verdict' % h)
+        elif not hr['checks']:
+            undet.append('%s: CBMC produced no check results (verdict %s: out of memory or crash) - not a completed bound' % (h, hr['verdict']))
         info.setdefault('per_harness', {})[h] = dict(checks=len(hr['checks']), verdict=hr['verdict'], time_s=hr['time'])
         if len(res.samples) < 12 and hr['checks']:
             c0 = [c for c in hr['checks'] if c['desc'] and 'assertion' in c['name']][:2]
